@@ -494,10 +494,10 @@ where
 
     while (right - left).abs() > two * tol {
         let x_half = (left + right) / two;
-        let r = tol * two.powf(n_max + n_0 - N::from_i32(j).unwrap()) - (right - left) / two;
+        let r = tol * two.powf(n_max + n_0 - N::from_i32(j).unwrap()) - (right - left).abs() / two;
         let x_f = (f_right * left - f_left * right) / (f_right - f_left);
         let sigma = (x_half - x_f).signum();
-        let delta = k_1 * (right - left).powf(k_2);
+        let delta = k_1 * (right - left).abs().powf(k_2);
         let x_t = if delta <= (x_half - x_f).abs() {
             x_f + sigma * delta
         } else {
